@@ -48,6 +48,17 @@ CLAIMS["C12"] = {
     "technique": "MIR path-sensitive must-use dataflow over parsed-fragment types",
 }
 
+CLAIMS["C07"] = {
+    "text": "Decides three structural conditions of total compilation: (RECGUARD) every recursion cycle on the compile path passes a call "
+            "edge dominated by a bounded-counter guard (nesting depth, duplicate depth, unroll budget) or a checked triage reason; "
+            "(LIMITS) the group and loop counters are compared with MAX_* before every increment, failing edge = Err; (PANICS) every "
+            "explicit panic site on the compile path is triaged with an invariant. Unguarded IR-depth recursion (walkers, drop glue) is "
+            "reported as the known stack-overflow finding.",
+    "note": COMMON_NOTE + "Not decided: termination of the optimizer fixpoint, implicit arithmetic/bounds panics, and the truth of each triaged invariant "
+            "(tables/panic_triage.json states them; some are cross-checked by other rules).",
+    "technique": "call-graph SCC analysis with dominator-based guard recognition + explicit-panic inventory over MIR",
+}
+
 PENDING = "rules for this property are designed (DESIGN.md §3/§4) but not built yet; nothing is claimed until they exist"
 
 NOT_APPLICABLE = {("C%02d" % i): PENDING for i in range(1, 21)}
